@@ -20,6 +20,10 @@ static std::vector<std::string> splitTab(const std::string& s) {
   std::vector<std::string> r; size_t p = 0; while (true) { size_t q = s.find('\t', p); r.push_back(s.substr(p, q == std::string::npos ? q : q - p)); if (q == std::string::npos) break; p = q + 1; } return r;
 }
 
+static std::vector<std::string> splitTabLike(const std::string& s, char c) {
+  std::vector<std::string> r; size_t p = 0; while (true) { size_t q = s.find(c, p); r.push_back(s.substr(p, q == std::string::npos ? q : q - p)); if (q == std::string::npos) break; p = q + 1; } return r;
+}
+#include <memory>
 #include "fn_cases.inc"
 
 int main() {
